@@ -12,6 +12,7 @@ import (
 	"testing"
 
 	anystore "github.com/anyproto/any-store"
+	"github.com/anyproto/any-store/query"
 	"pgregory.net/rapid"
 
 	"github.com/anyproto/any-sync/commonspace/headsync/headstorage"
@@ -62,6 +63,9 @@ func genCase(rt *rapid.T) Case {
 		c.Ops = append(c.Ops, Op{K: k, A: rapid.IntRange(1, 3).Draw(rt, "a"), B: rapid.IntRange(0, 3).Draw(rt, "b")})
 	}
 	if rapid.Bool().Draw(rt, "del") {
+		if rapid.IntRange(0, 2).Draw(rt, "bulk") == 0 {
+			c.Ops = append(c.Ops, Op{K: "bulk", A: rapid.IntRange(0, 10).Draw(rt, "bulkn")})
+		}
 		c.Ops = append(c.Ops, Op{K: "delete"})
 	}
 	return c
@@ -136,7 +140,12 @@ func readDurable(s *treesim.Sim, dir, base string) (durable, error) {
 			if eerr == nil && entry.DeletedStatus == 0 && len(entry.Heads) > 0 {
 				return d, fmt.Errorf("heads entry for the tree exists (%v) but the tree storage does not open", entry.Heads)
 			}
-			b.WriteString("tree absent\n")
+			// nothing of the tree may be left behind either (a delete is all-or-nothing)
+			orphans := 0
+			if coll, cerr := db.OpenCollection(ctx, objecttree.CollName); cerr == nil {
+				orphans, _ = coll.Find(query.Key{Path: []string{objecttree.TreeKey}, Filter: query.NewComp(query.CompOpEq, s.Root.Id)}).Count(ctx)
+			}
+			fmt.Fprintf(&b, "tree absent, %d of its changes left in the changes collection\n", orphans)
 			return durable{digest: b.String()}, nil
 		}
 		return d, fmt.Errorf("TreeStorage: %w", err)
@@ -647,6 +656,27 @@ func run(c Case) (out vstat.Outcome, err error) {
 			a = action{name: op.K, needs: "tree", retrySame: true, apply: func(rep *treesim.Replica, _ anystore.DB) error {
 				return s.HandleHeadUpdateOn(rep, last)
 			}}
+		case "bulk":
+			// not faulted: a long stretch of remote changes (more than one deletion batch would hold)
+			if sub().Tree == nil {
+				continue
+			}
+			for i := 0; i < 105+op.A; i++ {
+				if _, err := s.Edit(producer, false, 8); err != nil {
+					return out, err
+				}
+			}
+			for _, m := range takeForSubject() {
+				if err := s.HandleHeadUpdateOn(sub(), m); err != nil {
+					return out, fmt.Errorf("step %d: honest head update rejected: %v", step, err)
+				}
+			}
+			if err := syncProducer(); err != nil {
+				return out, err
+			}
+			takeForSubject()
+			w.classes["bulk"] = true
+			continue
 		case "acl":
 			if nextAcl >= len(s.ExtraAcl) {
 				continue
@@ -775,4 +805,9 @@ func TestRegDeferredCreateCommitError(t *testing.T) {
 func TestRegLocalAddAclDelete(t *testing.T) {
 	outerT = t
 	vstat.One(t, prop, Case{Seed: 7, Ops: []Op{{K: "space_create"}, {K: "create_eager"}, {K: "local", A: 1}, {K: "snapshot", A: 1}, {K: "acl", A: 1}, {K: "remote", A: 2}, {K: "delete"}}}, run)
+}
+
+func TestRegDeleteLongTree(t *testing.T) {
+	outerT = t
+	vstat.One(t, prop, Case{Seed: 9, Ops: []Op{{K: "space_create"}, {K: "create_eager"}, {K: "local", A: 1}, {K: "bulk", A: 3}, {K: "delete"}}}, run)
 }
